@@ -59,6 +59,12 @@ Definition listing_ok (univ : list string) (g : ghost) (d : disk) : bool :=
 Definition get_err_expected (g : ghost) (k : string) : bool :=
   match g k with Some (v, _) => negb (vvalid v) | None => true end.
 
+(* a reference to Secret k names only files derived from k: no path, the single file, or the two CA files *)
+Definition own_paths (k : string) : list string :=
+  let n := key_to_fname k in
+  [""; n; (n ++ ca_crt_suffix) ++ " " ++ (n ++ ca_crl_suffix)].
+Definition path_ok (k p : string) : bool := mem_str p (own_paths k).
+
 (* the keys of the Secrets of a history: those that are ever added *)
 Definition upsert_keys (h : list op) : list string :=
   flat_map (fun o => match o with Upsert ns name _ => [key_of ns name] | _ => [] end) h.
